@@ -21,6 +21,13 @@ constexpr long NOARG = -0x7fffffffL;
 // progress of the (single) case thread, sampled by the CPU-time watchdog in c14_main.cpp
 inline std::atomic<uint64_t> g_opSeq{0};
 inline char g_curOp[96]; // kind of the operation in flight (racy read by the watchdog is fine: fixed buffer)
+// name of the check whose evaluation is in flight ("" = none): a fatal error or a non-returning call while a
+// check is being evaluated is a failure of that check and gets the same key as a wrong value would
+inline char g_checkCtx[96];
+inline void setCheckCtx(const char* what) {
+  strncpy(g_checkCtx, what ? what : "", sizeof g_checkCtx - 1);
+  g_checkCtx[sizeof g_checkCtx - 1] = 0;
+}
 inline void noteProgress(const char* what) {
   if (what) {
     strncpy(g_curOp, what, sizeof g_curOp - 1);
@@ -81,6 +88,7 @@ struct Case {
   void op(const char* name, long a = NOARG, long b = NOARG, const char* keyName = nullptr) {
     ++ops;
     lastOp = keyName ? keyName : name;
+    setCheckCtx(nullptr);
     noteProgress(lastOp.c_str());
     kinds.insert(name);
     std::string s = name;
@@ -101,8 +109,11 @@ struct Case {
   //! phase marker that is not an operation of the sequence (e.g. "destructor")
   void phase(const char* name) {
     lastOp = name;
+    setCheckCtx(nullptr);
     noteProgress(name);
   }
+  //! the check `what` is about to be evaluated by calling into the container (see g_checkCtx)
+  void checking(const char* what) { setCheckCtx(what); }
   std::string history(size_t maxn = 80) const {
     std::string s;
     size_t from = hist.size() > maxn ? hist.size() - maxn : 0;
@@ -149,6 +160,7 @@ struct Case {
   template <typename A, typename B>
   bool eq(const char* what, const A& actual, const B& expected) {
     ++resultChecks;
+    setCheckCtx(nullptr);
     if (bad)
       return false;
     if (!(actual == expected)) {
